@@ -87,6 +87,10 @@ SHAPES = {
     "lit_mapping": ("mixed gl = 5;", 'string s = "x"; return ([ REP<"k%d":s> ]);', False),
     "lit_in_call": ("mixed gl = ({ 1 });", 'return sizeof(({ REP<gl> }));', False),
     "lit_in_rec": ("mixed gl = 7; mixed f(int d) { if (d < 3) return f(d + 1); return ({ REP<gl, d> }); }", 'return f(0);', False),
+    # carryover arguments of add_action(): stored with the sentence and pushed again, all at once, when the verb is used
+    "action_carryover": ("int fn(string a, mixed *rest...) { return 1 + sizeof(rest); }\n"
+                         "int deep(int d, int a1, int a2, int a3, int a4, int a5, int a6, int a7, int a8, int a9) { if (d) return deep(d - 1, 1, 2, 3, 4, 5, 6, 7, 8, 9); return command(\"vv x\"); }",
+                         'mixed *a = allocate(N); enable_commands(); add_action("fn", "vv", 0, a...); return deep(6, 1, 2, 3, 4, 5, 6, 7, 8, 9);', False),
     "add_eq_num": ("", 'mixed s = repeat_string("a", N); s += 12345; s += 1.5; return s;', False),
 }
 PEER = 'int ping(object o, int n) { return call_other(o, "f", n + 1); }\nvoid create() { }\n'
